@@ -6,6 +6,19 @@ from C01 import header_collision, per_test_calls
 from C09 import parse_entries
 
 
+def stand_value(r):
+    """a standalone file holds its value byte for byte: CRLF text, lone carriage returns, the empty value and raw bytes are
+    values like any other (unchanged ones must not be rewritten, changed ones must converge)"""
+    k = r.below(8)
+    if k == 0:
+        return b"HTTP/1.1 200 OK\r\nContent-Type: text/plain\r\nX-Id: %d\r\n\r\nhello\r\nworld" % r.below(3)
+    if k == 1:
+        return r.choice([b"", b"\r", b"\r\n", b"a\rb", b"line\r\n"])
+    if k == 2:
+        return bytes(r.below(256) for _ in range(r.range(1, 24)))
+    return G.gen_text(r)
+
+
 class C04(Prop):
     pid = "C04"
     rule = ("update-mode histories: process 1 records a program (1-4 tests, 1-12 calls, all five entry points incl. standalone), "
@@ -89,7 +102,7 @@ class C04(Prop):
             prog = G.gen_program(r, ntests=(1, 4), maxcalls=12, collide=collide, handles=(h,),
                                  apis=("snap", "snap", "json", "yaml"))
             # add standalone calls
-            prog = [(t, hh, calls + ([G.op_match_doc("stand", hh, t, G.gen_text(r))] if r.chance(1, 3) else [])
+            prog = [(t, hh, calls + ([G.op_match_doc("stand", hh, t, stand_value(r))] if r.chance(1, 3) else [])
                      + ([G.op_match_doc("standjson", hh, t, r.choice(G.JSON_DOCS))] if r.chance(1, 4) else [])) for t, hh, calls in prog]
             if r.chance(1, 6):
                 # bulky entries: the file spans several 4096-byte scanner windows, entries straddle the window boundaries
@@ -113,7 +126,7 @@ class C04(Prop):
                 prog = [(t, hh, [longline(c) for c in calls]) for t, hh, calls in prog]
             prog2 = G.mutate_program(r, prog, frac=r.choice([(0, 1), (1, 4), (1, 2), (1, 1)]), collide=collide)
             # standalone values are not touched by mutate_program's generator for non-multi apis: mutate by hand
-            prog2 = [(t, hh, [dict(c, doc=hx(G.gen_text(r))) if c["api"] == "stand" and r.chance(1, 2) else c for c in calls]) for t, hh, calls in prog2]
+            prog2 = [(t, hh, [dict(c, doc=hx(stand_value(r))) if c["api"] == "stand" and r.chance(1, 2) else c for c in calls]) for t, hh, calls in prog2]
             p1 = cfg + G.run_program(r, prog, 1)
             p2 = cfg + ([] if cfg else [G.op_setenv(False, "true")]) + G.run_program(r, prog2, 1)
             renv = r.choice([(True, "unset"), (False, "unset"), (False, "other"), (True, "true")])
